@@ -435,7 +435,8 @@ func (a *admin) intruder() {
 	done := false
 	var serr error
 	q := &rt.WaitQ{}
-	run.sim.Spawn("intruder-serve", ni.nc, func() {
+	inc2 := &rt.NodeCtx{ID: 200 + int(ni.node.id), ClockPPM: ni.nc.ClockPPM, User: fsm.inc} // a process of its own
+	run.sim.Spawn("intruder-serve", inc2, func() {
 		serr = r2.Serve(lst)
 		done = true
 		q.Wake()
@@ -445,8 +446,10 @@ func (a *admin) intruder() {
 		time.Sleep(run.cfg.HB / 4)
 	}
 	if !done {
-		// it is serving: two instances on one directory
-		run.led.onIntruder(ni, served, "serving", nil)
+		if r2.ldr != nil {
+			// it got past the lock and runs its state loop: two instances on one directory
+			run.led.onIntruder(ni, served, "serving", nil)
+		}
 		_ = r2.Shutdown(context.Background())
 		return
 	}
